@@ -46,13 +46,26 @@ func runC02(c *Ctx, r *Report, tier string) {
 	sites, asV := c.callersOf(po)
 	for _, s := range sites {
 		n := c.fname(s.Fn)
-		r.Check(n == "(*Parser).parseLong" || n == "(*Parser).parseShort", "FUNNEL", n, "caller of parseOption", c.ipos(s.Call), "parseLong / parseShort", "parseOption called from "+n)
+		okc := false
+		for _, o := range c.ownerNames(s.Fn) {
+			okc = o == "(*Parser).parseLong" || o == "(*Parser).parseShort"
+			if !okc {
+				break
+			}
+		}
+		r.Check(okc, "FUNNEL", n, "caller of parseOption", c.ipos(s.Call), "parseLong / parseShort", "parseOption called from "+n)
 	}
 	r.Check(len(asV) == 0 && len(sites) == 2, "FUNNEL", pon, "parseOption call sites", c.pos(po.Pos()), "two direct callers, never used as a value", fmt.Sprintf("%d call sites, %d value uses", len(sites), len(asV)))
 	sites, _ = c.callersOf(set)
 	for _, s := range sites {
 		n := c.fname(s.Fn)
-		ok := n == "(*Parser).parseOption" || n == "(*Option).setDefault" || n == "(*IniParser).parse"
+		ok := false
+		for _, o := range c.ownerNames(s.Fn) { // a helper extracted from an allowed caller acts on its behalf
+			ok = o == "(*Parser).parseOption" || o == "(*Option).setDefault" || o == "(*IniParser).parse"
+			if !ok {
+				break
+			}
+		}
 		r.Check(ok, "FUNNEL", n, "caller of Option.Set", c.ipos(s.Call), "parseOption / setDefault / IniParser.parse", "Option.Set called from "+n)
 	}
 	// the argument-path Set: operand is the address of a cell whose stores are *argument, pop(), unquote result
@@ -83,6 +96,8 @@ func runC02(c *Ctx, r *Report, tier string) {
 			vals = append(vals, trunc(t, 50))
 			switch {
 			case t == "*(P5)", t == "call:(*parseState).pop(P1)", strings.HasPrefix(t, "call:unquoteIfPossible(cell:string)#0"):
+			case t == "phi{call:unquoteIfPossible(cell:string)#0 | cell:string}":
+				// a helper that returns the argument either unquoted or unchanged (unquote:"false")
 			case t == `phi{"" | call:(*parseState).pop(P1)}`, t == `phi{call:(*parseState).pop(P1) | ""}`:
 				// a helper returning ("", err) on its failure exits: the empty member never reaches Set
 			default:
@@ -95,7 +110,7 @@ func runC02(c *Ctx, r *Report, tier string) {
 	// UNQUOTE
 	sites, _ = c.callersOf(uq)
 	for _, s := range sites {
-		r.Check(s.Fn == po, "UNQUOTE", c.fname(s.Fn), "caller of unquoteIfPossible", c.ipos(s.Call), "parseOption only: one place for every spelling", "unquoteIfPossible called from "+c.fname(s.Fn))
+		r.Check(c.actsFor(s.Fn, po), "UNQUOTE", c.fname(s.Fn), "caller of unquoteIfPossible", c.ipos(s.Call), "parseOption only: one place for every spelling", "unquoteIfPossible called from "+c.fname(s.Fn))
 	}
 	for _, in := range c.instrs(po, c.isCallTo("unquoteIfPossible")) {
 		// guards: beyond those of the merge point, only the tag test
@@ -109,13 +124,20 @@ func runC02(c *Ctx, r *Report, tier string) {
 			r.Fail("UNQUOTE", pon, "unquote tag test", c.ipos(in), "no test of the unquote tag found")
 			continue
 		}
+		tagTest := merge
+		if merge.Parent() != po {
+			// the tag test lives in a helper: the merge point is the block of the helper's call in parseOption
+			if _, chain := c.callChain(merge.Parent()); len(chain) > 0 && chain[0].Parent() == po {
+				merge = chain[0].Block()
+			}
+		}
 		base := map[CtlDep]bool{}
 		for _, d := range c.controlDeps(po, merge) {
 			base[d] = true
 		}
 		var extra []string
 		for _, d := range c.controlDeps(po, in.Block()) {
-			if base[d] || d.B == merge {
+			if base[d] || d.B == merge || d.B == tagTest {
 				continue
 			}
 			if l, ok := c.edgeLit(d.B, d.Succ); ok {
@@ -142,7 +164,7 @@ func runC02(c *Ctx, r *Report, tier string) {
 
 	// SPLIT
 	son := c.fname(so)
-	pos := `call:strings.Index(P1, "=")`
+	pos := `index(P1, "=")`
 	nIdx := 0
 	for _, in := range c.instrs(so, c.isCallTo("strings.Index", "strings.LastIndex", "strings.IndexByte", "strings.IndexRune", "strings.LastIndexByte", "strings.IndexAny")) {
 		nIdx++
@@ -168,9 +190,9 @@ func runC02(c *Ctx, r *Report, tier string) {
 		// guard: (islong ∧ pos ≥ 0) ∨ (¬islong ∧ pos == width of first rune)
 		_, g := c.Requires(so, isInstr(ret), anyLit(
 			litIs(`has(P1, "=")`, true),
-			litIs("eq("+pos+", call:unicode/utf8.DecodeRuneInString(P1)#1)", true),
+			litEq(pos, "call:unicode/utf8.DecodeRuneInString(P1)#1", true),
 		), nil)
-		_, gl := c.Requires(so, isInstr(ret), anyLit(litIs("P2", true), litIs("eq("+pos+", call:unicode/utf8.DecodeRuneInString(P1)#1)", true)), nil)
+		_, gl := c.Requires(so, isInstr(ret), anyLit(litIs("P2", true), litEq(pos, "call:unicode/utf8.DecodeRuneInString(P1)#1", true)), nil)
 		_, gs := c.Requires(so, isInstr(ret), anyLit(litIs("P2", false), litIs(`has(P1, "=")`, true)), nil)
 		r.Check(g && gl && gs, "SPLIT", son, "long: pos ≥ 0; short: pos == width of the first character", c.ipos(ret), "REQ((islong ∧ pos ≥ 0) ∨ (¬islong ∧ pos == DecodeRune width))", fmt.Sprintf("pos-guard=%v long-side=%v short-side=%v", g, gl, gs))
 	}
